@@ -287,12 +287,23 @@ def run_one(ch, env):
                     basis.is_completely_masked()
                 elif inspect == 3:
                     _ = (basis.dtype, basis.mode, basis.width)
-                Image.from_array(src.copy()).update_into_maskable_buffer(basis, iy, ix, by, bx)
+                # what the body does with the tile it was handed: update it (mostly), wipe it, or wipe and then update it
+                body = (0, 0, 0, 1, 2)[ch.draw(5, kind="update_body")]
+                if body and not basis.asarray().flags.writeable:
+                    body = 0        # clear() is documented to need a writable image (tiles loaded through PIL are not)
+                if body:
+                    basis.clear()
+                    probe("op_update_body_clears")
+                if body != 1:
+                    Image.from_array(src.copy()).update_into_maskable_buffer(basis, iy, ix, by, bx)
             if inspect:
                 probe("op_update_after_inspection")
             cur = model.get(P)
             buf = cur.copy() if cur is not None else undefined_buffer(tile_mode, 256, 256)
-            model_update(mode, buf, src, iy, ix, by, bx)
+            if body:
+                buf = undefined_buffer(tile_mode, 256, 256)
+            if body != 1:
+                model_update(mode, buf, src, iy, ix, by, bx)
             model.pop(P, None)
             if not entirely_undefined(tile_mode, buf):
                 model[P] = buf
